@@ -456,6 +456,25 @@ def r4b(ctx):
             if not re.fullmatch(r"\(\(apply\(attr:read\(.*\), \d+\) == '[^']+'\) or \(apply\(attr:read\(.*\), \d+\) == "
                                 r"apply\(attr:encode\('[^']+'\)\)\)\)", content):
                 probs.append(f'read: the content test is {content[:160]}; must be (signature read == constant) or (== its bytes)')
+        # content branch (fits): opening the file as FITS succeeds -> True, fails with OSError -> False
+        if fmt == 'fits':
+            tries = [n for n in ast.walk(ident.node) if isinstance(n, ast.Try)]
+            okc = False
+            for t in tries:
+                withs = [w for w in ast.walk(t) if isinstance(w, ast.With) and any(
+                    (call_name(it.context_expr) or '').endswith('.open') for it in w.items if isinstance(it.context_expr, ast.Call))]
+                if not withs:
+                    continue
+                w = withs[-1]
+                body_true = len(w.body) == 1 and isinstance(w.body[0], ast.Return) and isinstance(w.body[0].value, ast.Constant) \
+                    and w.body[0].value.value is True
+                hs_false = t.handlers and all(
+                    len(h.body) == 1 and isinstance(h.body[0], ast.Return) and isinstance(h.body[0].value, ast.Constant)
+                    and h.body[0].value.value is False and h.type is not None and 'OSError' in ast.unparse(h.type)
+                    for h in t.handlers)
+                okc = body_true and hs_false
+            if not okc:
+                probs.append('read: the content test must be "the file opens as FITS -> True; OSError -> False"')
         # the canonical extension of the format is a write extension
         canon = {'ds9': '.reg', 'crtf': '.crtf', 'fits': '.fits'}[fmt]
         wrets = res['write'][0]
